@@ -48,8 +48,9 @@ TReset == /\ IsEvent("reset") /\ Ln.a = NG
           /\ SlotsMatch /\ FileMatch /\ bs' = Ln.bs
           /\ stacked' = (Ln.cfg[4] = 1) /\ oc' = IdleOc /\ ust' = FreshUst(InitBS) /\ ores' = NoOres /\ ounrep' = FALSE
 OpenArgs(A(_, _, _, _, _)) == A(Ln.cfg[1] = 1, Ln.cfg[2] = 1, Ln.cfg[3] = 1, IF Dio THEN 4096 ELSE 0, Ln.cfg[6] = 1)
-TOpen == /\ IsEvent("open") /\ SlotsMatch /\ FileMatch /\ bs' = Ln.bs /\ UNCHANGED stacked
+TOpen == /\ IsEvent("open") /\ UNCHANGED stacked
          /\ IF stacked THEN OpenArgs(OOpen) ELSE OpenArgs(Open) /\ UNCHANGED svars
+         /\ SlotsMatch /\ FileMatch /\ bs' = Ln.bs
 TRead == /\ IsEvent("read") /\ Read(Ln.a, Ln.b, FOf) /\ Logged /\ Plain
          /\ (Ln.ret = 0 => res'.data = Ln.data)
 TWrite == IsEvent("write") /\ Write(Ln.a, Ln.b, Ln.tags, FOf) /\ Logged /\ Plain
@@ -79,10 +80,12 @@ TNBlksize == IsEvent("blksize") /\ Nested /\ NBlksize(Ln.a, FOf) /\ Logged
 TNCacheOff == IsEvent("cacheoff") /\ Nested /\ NCacheOff(FOf) /\ Logged
 TNCacheOn == IsEvent("cacheon") /\ Nested /\ NCacheOn /\ Logged
 TNReadahead == IsEvent("readahead") /\ Nested /\ NReadahead(Ln.ret)
-TUCall == \E k \in {"blksize", "read", "write", "flush", "close"} : IsEvent("u_" \o k) /\ Nested /\ UCall(k, Ln.ret)
-TOEnd == /\ IsEvent("o_end") /\ Nested /\ OFinish
-         /\ Ln.op = oc.op /\ Ln.ret = oc.ret                               \* the wrapper returned what its entry point computes
-         /\ (oc.op = "read" /\ Ln.ret = 0) => Ln.data = oc.data             \* ... and handed the nested read's data to its caller
+TUCall == \E k \in {"blksize", "read", "write", "flush", "close"} : IsEvent("u_" \o k) /\ Nested /\ (UCall(k, Ln.ret) \/ UExtra(k, Ln.ret))
+\* the properties at the wrapper's level are evaluated with the value the caller really got; that it is the value the
+\* transcription computes is the invariant OuterRetAsSpecified
+TOEnd == /\ IsEvent("o_end") /\ Nested /\ OFinish(Ln.ret)
+         /\ Ln.op = oc.op
+         /\ (oc.op = "read" /\ Ln.ret = 0) => Ln.data = oc.data             \* the wrapper handed the nested read's data to its caller
 
 TraceInit == InitWith(Fresh) /\ l = 1 /\ stacked = FALSE /\ SInit
 TraceNext == TReset \/ TOpen \/ TRead \/ TWrite \/ TWByte \/ TZero \/ TDiscard \/ TFlush \/ TClose \/ TBlksize
